@@ -18,7 +18,9 @@ Case kinds (`i.kind`):
   A failure of (a) that disappears when the subscriber compensates for a recorded defect is reported under that
   finding's key (`added-aliased`: skip the updates the scheduler already merged into the published `added`
   elements; `startup-republish`: skip the start-up publication when it repeats the batch published before it);
-  a pooled task without store entry whose task definition is missing from the store too is `reload-orphan-missing`.
+  a pooled task without store entry whose task definition is missing from the store too is `reload-orphan-missing`;
+  a pool / store difference of a task is filed under `remove-flow-stale` / `set-pre-no-delta` / `unpooled-object-deltas`
+  only after the harness observed the call-site condition of that finding for that task (`ds.ev`).
 * "apply"  - component tie: random store + batches through the real `apply_delta` (subscriber protocol).
 * "alias"  - component tie: what `DataStoreMgr.apply_delta_batch` leaves in the delta that is published afterwards.
   JUDGE: the published delta is the applied delta.
@@ -41,7 +43,9 @@ def pickWhy (fs : List Failure) : Option String :=
   | some f => some f.msg
   | none =>
     let byKey := fun (k : String) => fs.find? (fun f => f.key == some k)
-    match (byKey "reload-orphan-missing").orElse (fun _ => (byKey "startup-republish").orElse (fun _ => fs.head?)) with
+    let prio := ["reload-orphan-missing", "unpooled-object-deltas", "set-pre-no-delta", "remove-flow-stale",
+                 "startup-republish"]
+    match (prio.findSome? byKey).orElse (fun _ => fs.head?) with
     | some f => some s!"{f.key.getD ""}: {f.msg}"
     | none => none
 
@@ -107,7 +111,14 @@ def cmpFields : List (String × String) :=
   [("st", "status"), ("held", "held flag"), ("q", "queued flag"), ("rh", "runahead flag"), ("fl", "flow numbers"),
    ("out", "completed outputs"), ("pre", "prerequisite satisfaction")]
 
-def judgeRow (idx : Nat) (row : Json) : List Failure :=
+/-- which pool / store fields a recorded finding can explain, once its call-site condition was observed for the task -/
+def explains : String → List String
+  | "remove-flow-stale" => ["fl"]
+  | "set-pre-no-delta" => ["pre"]
+  | "unpooled-object-deltas" => ["st", "held", "q", "rh", "fl", "out", "pre"]
+  | _ => []
+
+def judgeRow (taints : List (String × String)) (idx : Nat) (row : Json) : List Failure :=
   let id := (jStrField? row "id").getD "?"
   let pool := (jField? row "pool").getD Json.null
   match jOptField row "store" with
@@ -121,12 +132,15 @@ def judgeRow (idx : Nat) (row : Json) : List Failure :=
       let a := (jField? pool f).getD Json.null
       let b := (jField? st f).getD Json.null
       if a == b then none
-      else some { key := none, msg := s!"obs {idx}: task {id}: {what} {a.compress} in the pool, {b.compress} in the data store" }
+      else
+        let key := (taints.find? fun t => t.2 == id && (explains t.1).contains f).map (·.1)
+        some { key, msg := s!"obs {idx}: task {id}: {what} {a.compress} in the pool, {b.compress} in the data store" }
 
 /-! ### a scheduler run -/
 
 structure RunAcc where
   c : Clients := {}
+  taints : List (String × String) := []     -- (finding key, task id): call-site conditions observed so far
   out : List Json := []
   fails : List Failure := []
 
@@ -159,8 +173,14 @@ def stepObs (acc : RunAcc) (idx : Nat) (step ob : Json) : Except String RunAcc :
           else none
         [{ key, msg := s!"obs {idx}: a subscriber that applied every published delta differs from the scheduler's store (replayed vs scheduler): {why}" }]
   -- (c) pool vs store after every data-store update
+  let taints := acc.taints ++ ((jArrField? ds "ev").getD []).filterMap fun e =>
+    match jArr? e with
+    | some [k, t] => match jStr? k, jStr? t with
+      | some k, some t => some (k, t)
+      | _, _ => none
+    | _ => none
   let fc := ((jArrField? ds "upd").getD []).foldl (fun fs snap =>
-      fs ++ ((jArr? snap).getD []).foldl (fun g row => g ++ judgeRow idx row) []) []
+      fs ++ ((jArr? snap).getD []).foldl (fun g row => g ++ judgeRow taints idx row) []) []
   let fe := match jOptField ds "error" with
     | some e => [{ key := none, msg := s!"obs {idx}: observer error {e.compress}" : Failure }]
     | none => []
@@ -168,7 +188,7 @@ def stepObs (acc : RunAcc) (idx : Nat) (step ob : Json) : Except String RunAcc :
     if !fresh && pubs.isEmpty then Json.null                  -- nothing was applied: unchanged
     else if c1.lastOut.map Store.norm == some c1.strict.norm then Json.null else c1.strict.toJson
   let outOb := Json.mkObj [("client", outClient), ("ccs", Json.arr ccsAll.toArray)]
-  return { c := { c1 with scur, lastOut := some c1.strict, recheck := pending && changed }, out := acc.out ++ [outOb],
+  return { c := { c1 with scur, lastOut := some c1.strict, recheck := pending && changed }, taints, out := acc.out ++ [outOb],
            fails := acc.fails ++ f1 ++ fa ++ fc ++ fe }
 
 def handleSched (i o : Json) : Except String Reply := do
